@@ -1,11 +1,26 @@
 (* Correspondence checker for C07: what the importers of /repo were observed to
    do on generated inputs, compared with Model/FromRaw.v, Model/Import.v and
    Model/Json.v (the latter instantiated with the dicttls tables of Gen/Dict.v). *)
-From Coq Require Export String.
+From Coq Require Export String Uint63.
 From UV Require Export Base.Common Model.Wire Model.Varint Model.Ext Model.FromRaw Model.Import Model.Json.
 From UV Require Import Model.Padding Model.Dicttls Gen.Dict.
 Open Scope N_scope.
 Open Scope list_scope.
+
+(* Compact byte-string literals for the case files (as in Corr/C05Corr.v): [pk n ws] is the n-byte
+   string whose successive 7-byte groups (the last one shorter) are the big-endian words ws. *)
+Fixpoint hx_go (k : nat) (x : N) (acc : bytes) : bytes :=
+  match k with
+  | O => acc
+  | S k' => hx_go k' (N.shiftr x 8) (N.land x 255 :: acc)
+  end.
+Definition hx (n : N) (x : N) : bytes := hx_go (N.to_nat n) x [].
+Definition w2n (w : Uint63.int) : N := Z.to_N (Uint63.to_Z w).
+Fixpoint pk (n : N) (ws : list Uint63.int) : bytes :=
+  match ws with
+  | [] => []
+  | w :: ws' => let k := N.min 7 n in hx k (w2n w) ++ pk (n - k) ws'
+  end.
 
 (* what the importer returned: a spec (the fields it sets, extensions rendered by
    extcoq.ExtTerm, and GetPaddingLen(0) of the first padding extension whose functor
